@@ -86,16 +86,20 @@ Definition s_type : bytes := str "type".
 Definition is_stanza_name (n : name) : bool :=
   in_list (nlocal n) so_stanza_locals && in_list (nspace n) so_stanza_spaces.
 
-(* the depth-1 attribute loop: attributes with local name id / from and an
+(* an attribute that is not in a name space and has the given local name *)
+Definition plain_is (l : bytes) (x : attr) : bool :=
+  is_empty (nspace (aname x)) && bytes_eqb (nlocal (aname x)) l.
+
+(* the depth-1 attribute loop: the unqualified attributes id / from with an
    empty value are dropped; non-empty ones are remembered *)
 Fixpoint idfrom_filter (a : list attr) : list attr * (bool * bool) :=
   match a with
   | [] => ([], (false, false))
   | x :: r =>
       let '(r', (fid, ffrom)) := idfrom_filter r in
-      if bytes_eqb (nlocal (aname x)) s_id then
+      if plain_is s_id x then
         if is_empty (aval x) then (r', (fid, ffrom)) else (x :: r', (true, ffrom))
-      else if bytes_eqb (nlocal (aname x)) s_from then
+      else if plain_is s_from x then
         if is_empty (aval x) then (r', (fid, ffrom)) else (x :: r', (fid, true))
       else (x :: r', (fid, ffrom))
   end.
@@ -112,7 +116,7 @@ Definition complete_start (c : cfg) (id : bytes) (n : name) (a : list attr) : na
   let a3 := if fid then a2 else a2 ++ [id_attr id] in
   (n1, a3, negb fid).
 
-Definition is_xmlns_attr (x : attr) : bool := bytes_eqb (nlocal (aname x)) s_xmlns.
+Definition is_xmlns_attr (x : attr) : bool := plain_is s_xmlns x.
 
 (* duplicate xmlns removal, at every depth *)
 Definition strip_xmlns (n : name) (a : list attr) : list attr :=
@@ -375,8 +379,7 @@ Fixpoint resolve_raw (d : Z) (bs : list binding) (ts : list token) : list token 
 
 (* outerWriter: the outermost elements are renamed to the start element and
    carry its attributes followed by their own (minus the xmlns declaration) *)
-Definition is_plain_xmlns (x : attr) : bool :=
-  is_empty (nspace (aname x)) && bytes_eqb (nlocal (aname x)) s_xmlns.
+Definition is_plain_xmlns (x : attr) : bool := plain_is s_xmlns x.
 
 Fixpoint replace_outer (sn : name) (sa : list attr) (d : Z) (ts : list token) : list token :=
   match ts with
